@@ -153,10 +153,12 @@ def main():
                  "working tree with a rustc_private driver (cached per tree hash), analyses BOTH feature configurations (default, benchmark) in the "
                  "quick tier, and reports a specific construct (file:line, function, rule instance). Where a property leans on a clause another "
                  "module decides, that module's rules are re-evaluated and reported under the property's own id (folds, DESIGN.md section 9). "
-                 "thorough = quick + re-decision of every dominance query on pre-borrowck MIR dominators + replay of the mutant corpus "
-                 "mutants/<ID>/*.patch on scratch copies (exit 2 if a mutant is not reported). Repaired defects are listed as fixed: in "
-                 "known_findings.txt; there are no open known findings. Validation corpora: 126 mutants, 34 benign refactors, 93 confirmed "
-                 "changes by independent sub-agents in seeded/ (DESIGN.md sections 11-12).",
+                 "thorough = quick + re-decision of every dominance query on pre-borrowck MIR dominators + replay of the property's "
+                 "self-validation corpus (mutants/<ID>/*.patch and the seeded/<ID>-* changes recorded as detected by it) on scratch copies of "
+                 "/repo's current tree; a corpus change that is not reported is a checker failure (exit 2) when /repo is the commit the corpus "
+                 "was validated against, and a printed NOTE on any other tree. Repaired defects are listed as fixed: in known_findings.txt; there "
+                 "are no open known findings. Validation corpora: 126 hand-written mutants, 128 behaviour-preserving refactors (all 19 checks must "
+                 "stay silent), 171 confirmed breaking changes written by independent sub-agents in seeded/ (DESIGN.md sections 11-12).",
     }
     with open(os.path.join(VERIF, "MANIFEST.json"), "w") as fh:
         json.dump(m, fh, indent=1)
